@@ -144,8 +144,17 @@ macro_rules! exec_cm_impl {
             r.p[d] = r.a[s].into_projective();
             proj_to_j(&r.p[d])
         }
-        "eq" => json!(r.p[idx(op, "d")] == r.p[idx(op, "s")]),
-        "eq_aff" => json!(r.a[idx(op, "d")] == r.a[idx(op, "s")]),
+        // == and != are separate trait methods: an event is TRUE only if both say "equal"
+        "eq" => {
+            let (x, y) = (r.p[idx(op, "d")], r.p[idx(op, "s")]);
+            let (e1, e2) = (x == y, !(x != y));
+            if e1 != e2 { json!("eq-ne-disagree") } else { json!(e1) }
+        }
+        "eq_aff" => {
+            let (x, y) = (r.a[idx(op, "d")], r.a[idx(op, "s")]);
+            let (e1, e2) = (x == y, !(x != y));
+            if e1 != e2 { json!("eq-ne-disagree") } else { json!(e1) }
+        }
         "is_zero" => json!(r.p[idx(op, "d")].is_zero()),
         "is_zero_aff" => json!(r.a[idx(op, "d")].is_zero()),
         "is_normalized" => json!(r.p[idx(op, "d")].is_normalized()),
@@ -165,6 +174,13 @@ macro_rules! exec_cm_impl {
                 .iter()
                 .map(|p| json!([proj_to_j(p), p.is_normalized()]))
                 .collect::<Vec<_>>())
+        }
+        // a long slice built from the registers by a pattern (register index per entry)
+        "batch_long" => {
+            let pat: Vec<usize> = op["pattern"].as_array().unwrap().iter().map(|x| x.as_u64().unwrap() as usize).collect();
+            let mut v: Vec<$G> = pat.iter().map(|i| r.p[*i]).collect();
+            <$G>::batch_normalization(&mut v);
+            json!(v.iter().map(|p| json!([proj_to_j(p), p.is_normalized()])).collect::<Vec<_>>())
         }
         "mul" => {
             let d = idx(op, "d");
